@@ -51,3 +51,19 @@ def bs_run(source: str, lo: int, i: int) -> int:
 def closes(source: str, close: str, lo: int, i: int) -> bool:
 	"""Python's rule: a quote character closes the literal unless it is preceded by an odd number of backslashes."""
 	return 0 <= i and i < len(source) and source[i] == close and bs_run(source, lo, i) % 2 == 0
+
+
+@spec
+def indent_of(tok: Token) -> int:
+	"""Width of the last line of a line-break token (the indentation of the next statement)."""
+	return len(tok._string.split('\n')[len(tok._string.split('\n')) - 1])
+
+
+@spec
+def nest_of(ctx: Tokenizer.Context, spaces: int) -> int:
+	"""Block depth of an indentation width: 0 for no indentation, else width / unit where the unit is the first non-zero width seen."""
+	if spaces == 0:
+		return 0
+	if ctx._indent_spaces == -1:
+		return int(spaces / spaces)
+	return int(spaces / ctx._indent_spaces)
